@@ -303,6 +303,13 @@ func init() {
 
 func NodeTypeFromName(name, arg string) NodeType {
 	if ntype, ok := nodeTypeMap[name]; ok {
+		switch ntype {
+		case NodeDeviateAdd, NodeDeviateDelete, NodeDeviateReplace,
+			NodeDeviateNotSupported:
+			// Names of the parser's own node types for the kinds of
+			// deviate, not YANG keywords.
+			return NodeUnknown
+		}
 		if ntype == NodeDeviate {
 			switch arg {
 			case "not-supported":
